@@ -13,6 +13,8 @@ def satTotal (infos : List Info) : Int :=
   infos.foldl (fun t i => if t + i.cap > maxInt then maxInt else t + i.cap) 0
 
 def effLimit (infos : List Info) (limit : Int) : Int := if limit = 0 then infos.length else limit
+/-- EACH (after the fix): any non-positive limit means "all nodes" -/
+def effLimitEach (infos : List Info) (limit : Int) : Int := if limit ≤ 0 then infos.length else limit
 
 /-- reference feasibility per strategy (C02) -/
 def feasible (s : Strat) (infos : List Info) (need limit : Int) : Bool :=
@@ -22,7 +24,7 @@ def feasible (s : Strat) (infos : List Info) (need limit : Int) : Bool :=
     else sumBy infos (·.cap) ≥ need
   | .global | .drained => sumBy infos (·.cap) ≥ need
   | .each =>
-    let l := effLimit infos limit
+    let l := effLimitEach infos limit
     l ≤ infos.length ∧ (infos.filter (fun i => i.cap ≥ need)).length ≥ max l 1
   | .fill =>
     let l := effLimit infos limit
@@ -42,7 +44,7 @@ def c01 (s : Strat) (infos : List Info) (need limit : Int) (p : Plan) : Bool :=
   | .global | .drained => sumBy infos (fun i => p.get i.name) == need
   | .each =>
     infos.all (fun i => p.get i.name == 0 || p.get i.name == need) &&
-    (infos.filter (fun i => p.get i.name == need)).length == effLimit infos limit
+    (infos.filter (fun i => p.get i.name == need)).length == effLimitEach infos limit
   | .fill =>
     infos.all (fun i => !p.has i.name || (p.get i.name == max (need - i.count) 0 && i.count + p.get i.name ≥ need)) &&
     (infos.filter (fun i => p.has i.name)).length == effLimit infos limit
